@@ -4,6 +4,9 @@ go 1.23.1
 
 require github.com/simimpact/srsim v0.0.0
 
-require google.golang.org/protobuf v1.34.2 // indirect
+require (
+	github.com/aclements/go-moremath v0.0.0-20210112150236-f10218a38794 // indirect
+	google.golang.org/protobuf v1.34.2 // indirect
+)
 
 replace github.com/simimpact/srsim => /repo
